@@ -91,7 +91,7 @@ func (g *gen) transfersTable() []wop {
 	return []wop{
 		{24, g.opTransfer}, {24, g.opNFTTransfer}, {30, g.opMulti},
 		{14, g.lateNetwork}, {3, g.opPayableFlip}, {2, g.opAlias},
-		{2, g.opMint}, {2, g.opCreate}, {1, g.opAddQty},
+		{2, g.opMint}, {2, g.opCreate}, {1, g.opAddQty}, {3, g.opSysTransfer},
 	}
 }
 
@@ -206,7 +206,7 @@ func (g *gen) runGates() {
 		{14, g.opFreezeToggle}, {9, g.opPauseToggle},
 		{10, g.opTransfer}, {10, g.opNFTTransfer}, {12, g.opMulti}, {5, g.opMint}, {5, g.opLocalBurn}, {4, g.opESDTBurn},
 		{4, g.opCreate}, {4, g.opAddQty}, {4, g.opNFTBurn}, {2, g.opAddURI}, {2, g.opUpdateAttr},
-		{6, g.opFullQuantity}, {4, g.opRAE}, {12, g.lateNetwork}, {1, g.opPayableFlip},
+		{6, g.opFullQuantity}, {4, g.opRAE}, {12, g.lateNetwork}, {1, g.opPayableFlip}, {3, g.opSysTransfer},
 	})
 }
 
@@ -578,10 +578,12 @@ func (g *gen) runFrame() {
 // opGasLadder: probe the exact charge c of a scenario call, then run it with gas in
 // {0, c-1, c, c+1, c+small, 2^32, 2^64-1} (a failing call is rolled back, so the ladder is ascending).
 func (g *gen) opGasLadder() bool {
-	return g.gasLadderFor(oracle.AllFunctions[g.r.Intn(len(oracle.AllFunctions))])
+	return g.gasLadderFor(oracle.AllFunctions[g.r.Intn(len(oracle.AllFunctions))], false)
 }
 
-func (g *gen) gasLadderFor(fn string) bool {
+// gasLadderFor: a call of fn at one or two rungs around its exact cost; with `sure` the exact cost is one of them (so a
+// scenario that can succeed does, and its charge is observed).
+func (g *gen) gasLadderFor(fn string, sure bool) bool {
 	sp, ok := g.scenario(fn)
 	if !ok {
 		return false
@@ -591,7 +593,7 @@ func (g *gen) gasLadderFor(fn string) bool {
 	res := g.probe(sp, -1)
 	if !isOK(res) {
 		g.do(sp)
-		return true
+		return !sure
 	}
 	c := charge(sp, res)
 	ladder := []uint64{0, c - 1, c, c + 1, c + uint64(1+g.r.Intn(500)), 1 << 32, 1<<64 - 1}
@@ -600,7 +602,11 @@ func (g *gen) gasLadderFor(fn string) bool {
 	}
 	// one or two rungs per visit, low rungs first (they fail and leave the state alone)
 	i := g.r.Intn(len(ladder))
-	for _, gv := range []uint64{ladder[g.r.Intn(i+1)], ladder[i]} {
+	rungs := []uint64{ladder[g.r.Intn(i+1)], ladder[i]}
+	if sure && c > 0 {
+		rungs = []uint64{c - 1, c}
+	}
+	for _, gv := range rungs {
 		sp.gas = gv
 		if r := g.do(sp); isOK(r) {
 			break
@@ -737,7 +743,7 @@ func (g *gen) runGas() {
 		// the schedule the factory was BUILT with prices the first call of every function (a later schedule change would
 		// overwrite a wrong binding made at construction)
 		for _, fn := range oracle.AllFunctions {
-			for try := 0; try < 3 && !g.gasLadderFor(fn); try++ {
+			for try := 0; try < 4 && !g.gasLadderFor(fn, true); try++ {
 			}
 		}
 	}
@@ -746,9 +752,18 @@ func (g *gen) runGas() {
 		if cur >= int64(act) {
 			return false
 		}
-		g.opGasmapChange()
+		// an ACCEPTED schedule change while the gated functions are still inactive, then the move; once they are
+		// active, an exact-cost call of each of them before anything else can change the schedule again
+		g.gas = g.primeSchedule()
+		g.emitf("gasmap * %s", gasmapString(g.gas))
 		cur++
 		g.emitf("epoch * %d", cur)
+		if cur == int64(act) {
+			for _, fn := range []string{oracle.FnNFTAddURI, oracle.FnNFTUpdate, oracle.FnMultiTransfer} {
+				for try := 0; try < 4 && !g.gasLadderFor(fn, true); try++ {
+				}
+			}
+		}
 		return true
 	}
 	g.loop([]wop{{50, g.opGasLadder}, {15, g.opGasWindow}, {8, g.opGasmapChange}, {8, g.opCallbackWithCall}, {5, g.opSKV}, {12, g.lateNetwork},
@@ -978,7 +993,8 @@ func (g *gen) opAdversarial() bool {
 	sysCall := false
 	switch {
 	case fn == oracle.FnNFTTransfer || fn == oracle.FnMultiTransfer:
-		// sender form only: destination-form payloads are protocol messages, never hand-crafted
+		// destination-form payloads on the destination shard are protocol messages, never hand-crafted; but a user can
+		// SUBMIT a destination-form call (receiver ≠ caller): it runs on the sender's shard and must be refused there
 		if g.r.Intn(3) > 0 {
 			if x, ok := g.pickHeld(anyPos); ok {
 				caller, rcv = x.a, x.a
@@ -986,6 +1002,9 @@ func (g *gen) opAdversarial() bool {
 					args[0] = x.h.tok
 				}
 			}
+		}
+		if g.r.Intn(5) == 0 {
+			rcv = g.otherThan(caller, nil)
 		}
 	case oracle.IsTransferFn(fn) || fn == oracle.FnBurn:
 		rcv = g.pick(append(append([][]byte{g.meta, oracle.ESDTSC}, g.accounts...), g.accounts...))
@@ -1000,15 +1019,20 @@ func (g *gen) opAdversarial() bool {
 	if sysCall {
 		caller = oracle.ESDTSC
 		rcv = g.pick(g.accounts)
-		if fn == oracle.FnPause || fn == oracle.FnUnPause {
-			rcv = oracle.SystemAccount
+		if (fn == oracle.FnPause || fn == oracle.FnUnPause) && g.r.Intn(4) > 0 {
+			rcv = oracle.SystemAccount // else: a pause addressed to an ordinary account — must be refused
 		}
 		if n > 0 {
 			args[0] = g.pick(g.allTokens())
 		}
 		if fn == oracle.FnSetRole || fn == oracle.FnUnSetRole || fn == oracle.FnHandOver {
-			// keep single-creator discipline: these go through the disciplined helpers only
-			return false
+			// keep single-creator discipline: these go through the disciplined helpers only — except in forms that are
+			// refused whatever the state (too few arguments; a hand-over without exactly two, or with a next holder
+			// that is not an address)
+			refused := n < 2 || (fn == oracle.FnHandOver && (n != 2 || len(args[1]) != 32))
+			if !refused {
+				return false
+			}
 		}
 	}
 	sp := spec{shard: g.shardOf(caller), fn: fn, caller: caller, rcv: rcv, args: args}
